@@ -8,8 +8,12 @@ legs:   M  exhaustive TLC check that both server encodings carry exactly the vie
         A  TLC-generated requests + application (options, responder kind) driven through four drivers
            (raw WSGI, raw ASGI, falcon.testing -> WSGI app, falcon.testing -> ASGI app); what the responder
            saw and what the server got must be equal across the drivers and equal to the spec's View
-        B  seeded random richer requests driven through the same four drivers, one event per driver,
-           judged by TLC (ServerIfaceTrace) against ServerIface!View / Expressible
+        H  TLC-generated request histories (spec/ServerIfaceHistory.tla: requests with/without content of their
+           own, the application writing marks into the containers the API hands out) replayed on ONE application
+           object per driver; what each request finds must be what the spec says (ViewIndependentOfHistory)
+        B  seeded random richer requests, in histories of 3 on one application object per driver with a writing
+           application, driven through the same four drivers, one event per driver, judged by TLC
+           (ServerIfaceTrace) against ServerIface!View / Expressible / no foreign marks
 """
 import hashlib
 import io
@@ -29,7 +33,10 @@ META = {
                   'normalised response must coincide on all drivers that can express the request, and method, decoded '
                   'path, query string, header map, content type/length, host/port/netloc/scheme, root path, peer and '
                   'body must equal the values TLC computes from the abstract request.',
-    'level_note': 'Bounded: exhaustive model check over 11 targets x 8 bodies x 8 endpoints x <= 1 pool header field, and 3 '
+    'level_note': 'Histories: all 144 (quick) / 1728 (thorough) behaviours of ServerIfaceHistory with 2 / 3 requests x 6 writer '
+                  'sets are replayed; leg B runs its random requests in histories of 3. Plain responders combine text, data, media '
+                  '(unset / empty / non-empty) and stream with 5 statuses and an optional Content-Type. '
+                  'Bounded: exhaustive model check over 11 targets x 8 bodies x 8 endpoints x <= 1 pool header field, and 3 '
                   'targets x 4 bodies x 8 endpoints x <= 2 pool fields (16-field pool). Legs A/B sample (TLC -simulate / '
                   'seeded rng) requests with <= 3 resp. <= 9 extra header fields, targets <= ~50 bytes, bodies <= 48 bytes in '
                   '<= 5 events. Query parameters, cookies, forwarding, conditional/range headers, URL parts, route '
@@ -124,12 +131,47 @@ def attr_digest(req):
     return d
 
 
+CONTAINERS = ('params', 'context', 'cookies', 'headers', 'extras', 'resp_context')
+
+
+def _containers(req, resp):
+    extras = getattr(req, 'env', None)
+    if extras is None:
+        extras = getattr(req, 'scope', {})
+    return {'params': req.params, 'context': req.context, 'cookies': req.cookies, 'headers': req.headers,
+            'extras': extras, 'resp_context': resp.context}
+
+
+def visible_marks(req, resp):
+    out = {}
+    for name, c in _containers(req, resp).items():
+        try:
+            out[name] = sorted(str(k).lower() for k in list(c) if 'vmark' in str(k).lower())
+        except Exception as e:      # noqa
+            out[name] = ['?%s' % type(e).__name__]
+    return out
+
+
+def write_marks(req, resp, names, mark):
+    """the application stores something of its own in the mutable containers the API hands out"""
+    if not names:
+        return
+    cs = _containers(req, resp)
+    for name in names:
+        try:
+            cs[name][mark] = 'v'
+        except Exception:           # noqa: a container that refuses writes cannot leak them
+            pass
+
+
 class Logic:
     """The generated application logic; one object, mounted on both stacks."""
 
     def __init__(self):
         self.kind = 'echo'
-        self.plain = None       # [status, source, ctype] of a "plain" responder
+        self.plain = None       # [status, text, data, media, stream, ctype] of a "plain" responder
+        self.writes = ()        # containers this request's responder writes a mark into (histories)
+        self.mark = 'vmark'
         self.seen = []
 
     def respond(self, req, resp, body, media, where, params, make_stream):
@@ -139,22 +181,26 @@ class Logic:
         d['route_params'] = val(params)
         d['body'] = val(body)
         d['media'] = media
+        # marks of OTHER requests visible in the containers handed out with this request (histories)
+        d['foreign'] = visible_marks(req, resp)
         self.seen.append(d)
+        write_marks(req, resp, self.writes, self.mark)
         k = self.kind
         if k == 'plain':
             p = self.plain
             resp.status = p['status']
-            if p['source'] == 'text':
-                resp.text = 'héllo ' + req.method
-            elif p['source'] == 'data':
-                resp.data = b'\x00\xffabc'
-            elif p['source'] == 'media':
-                resp.media = {'a': [1, 'é'], 'm': req.method}
-            elif p['source'] == 'stream':
+            # any combination of body sources, the explicitly empty ones included
+            if p['text'] != 'unset':
+                resp.text = '' if p['text'] == 'empty' else 'héllo ' + req.method
+            if p['data'] != 'unset':
+                resp.data = b'' if p['data'] == 'empty' else b'\x00\xffabc'
+            if p['media'] != 'unset':
+                resp.media = {} if p['media'] == 'empty' else {'a': [1, 'é'], 'm': req.method}
+            if p['stream']:
                 resp.stream = make_stream([b'ab', b'', b'cde'])
             if p['ctype']:
                 # resp.media is rendered by the handler of the response content type: keep it a JSON type
-                resp.content_type = 'application/json; v=1' if p['source'] == 'media' else 'text/x-custom; v=1'
+                resp.content_type = 'application/json; v=1' if p['media'] != 'unset' else 'text/x-custom; v=1'
         elif k in ('echo', 'media'):
             resp.media = {'path': req.path, 'method': req.method, 'q': req.query_string}
             resp.set_header('X-Seen', 'yes')
@@ -257,24 +303,46 @@ class AsgiRes:
 _APPS = {}
 
 
+def _mount(logic, asgi, key):
+    import falcon
+    import falcon.asgi
+    app = falcon.asgi.App() if asgi else falcon.App()
+    R = AsgiRes if asgi else WsgiRes
+    app.req_options.strip_url_path_trailing_slash = key[0]
+    app.req_options.keep_blank_qs_values = key[1]
+    app.req_options.auto_parse_qs_csv = key[2]
+    app.add_route('/r/{p}', R(logic, 'route'))
+    app.add_route('/', R(logic, 'root'))
+    app.add_sink(R(logic, 'sink'), '/')
+    return app
+
+
+def _key(opts):
+    return (bool(opts['strip']), bool(opts['keep_blank']), bool(opts['csv']))
+
+
 def apps_for(opts):
-    """(logic, wsgi app, asgi app) for one request-option setting; built once."""
-    key = (bool(opts['strip']), bool(opts['keep_blank']), bool(opts['csv']))
+    """{iface: (logic, app)} for one request-option setting, built once: one logic object mounted on one
+    WSGI and one ASGI app (single-request cases)."""
+    key = _key(opts)
     if key not in _APPS:
-        import falcon
-        import falcon.asgi
         logic = Logic()
-        w = falcon.App()
-        a = falcon.asgi.App()
-        for app, R in ((w, WsgiRes), (a, AsgiRes)):
-            app.req_options.strip_url_path_trailing_slash = key[0]
-            app.req_options.keep_blank_qs_values = key[1]
-            app.req_options.auto_parse_qs_csv = key[2]
-            app.add_route('/r/{p}', R(logic, 'route'))
-            app.add_route('/', R(logic, 'root'))
-            app.add_sink(R(logic, 'sink'), '/')
-        _APPS[key] = (logic, w, a)
+        w, a = _mount(logic, False, key), _mount(logic, True, key)
+        _APPS[key] = {'raw-wsgi': (logic, w), 'client-wsgi': (logic, w), 'raw-asgi': (logic, a), 'client-asgi': (logic, a)}
     return _APPS[key]
+
+
+def fresh_apps(opts):
+    """{iface: (logic, app)}: ONE new application object per driver, to serve one history of requests."""
+    key = _key(opts)
+    out = {}
+    for iface in IFACES_ALL:
+        logic = Logic()
+        out[iface] = (logic, _mount(logic, iface.endswith('asgi'), key))
+    return out
+
+
+IFACES_ALL = ('raw-wsgi', 'raw-asgi', 'client-wsgi', 'client-asgi')
 
 
 # ------------------------------------------------------------------------------------------------
@@ -345,7 +413,7 @@ def project_client(result, repeated):
     return {'status': result.status_code, 'headers': hs, 'cookies': ck, 'body': list(result.content)}
 
 
-def observe(iface, logic, wapp, aapp, rq, cargs):
+def observe(iface, logic, app, rq, cargs):
     """Drive one request through one interface; returns dict(digest, raw, proj, exc, errors)."""
     import falcon.testing
     logic.seen = []
@@ -353,15 +421,14 @@ def observe(iface, logic, wapp, aapp, rq, cargs):
     try:
         if iface == 'raw-wsgi':
             # wsgi.input is a blocking file: arrival chunking is invisible (ServerIface!ToEnviron)
-            res = drivers.wsgi_call(wapp, rq, input_obj=drivers.WsgiInput(rq.body, None))
+            res = drivers.wsgi_call(app, rq, input_obj=drivers.WsgiInput(rq.body, None))
         elif iface == 'raw-asgi':
-            res = drivers.asgi_call(aapp, rq)
+            res = drivers.asgi_call(app, rq)
         else:
             res = None
             with warnings.catch_warnings():
                 warnings.simplefilter('ignore')
-                result = falcon.testing.simulate_request(wapp if iface == 'client-wsgi' else aapp,
-                                                         wsgierrors=io.StringIO(), **cargs)
+                result = falcon.testing.simulate_request(app, wsgierrors=io.StringIO(), **cargs)
         if res is not None:
             if res.exc is not None:
                 o['exc'] = 'escaped to the server: %r' % (res.exc,)
@@ -379,17 +446,17 @@ def observe(iface, logic, wapp, aapp, rq, cargs):
     return o
 
 
-def observe_all(rq_json, cargs_json, opts, kind, expressible, plain=None):
-    logic, wapp, aapp = apps_for(opts)
-    logic.kind = kind
-    logic.plain = plain
+def observe_all(rq_json, cargs_json, opts, kind, expressible, plain=None, apps=None, writes=(), mark='vmark'):
+    apps = apps or apps_for(opts)
     rq = to_wire(rq_json)
     obs = {}
     for iface in IFACES:
         if not expressible[iface]:
             continue
+        logic, app = apps[iface]
+        logic.kind, logic.plain, logic.writes, logic.mark = kind, plain, tuple(writes), mark
         cargs = client_args(cargs_json) if iface.startswith('client') else None
-        obs[iface] = observe(iface, logic, wapp, aapp, rq, cargs)
+        obs[iface] = observe(iface, logic, app, rq, cargs)
     # the client result drops repeated response fields ("unspecified which wins"): project with the raw knowledge
     repeated = set()
     for o in obs.values():
@@ -702,7 +769,7 @@ def event_of(iface, o):
     dg = o['digest']
     ev = {'iface': iface, 'reached': dg is not None and o['exc'] is None, 'method': '', 'path': [], 'query': [], 'hmap': [],
           'has_ctype': False, 'ctype': [], 'clen': -3, 'host': [], 'port': -3, 'netloc': [], 'scheme': '', 'root': [],
-          'peer': [], 'body': [], 'status': -1, 'dg': '', 'rs': ''}
+          'peer': [], 'body': [], 'status': -1, 'foreign': [], 'dg': '', 'rs': ''}
     if ev['reached']:
         f = observed_fields(dg)
         if f['body'] is None:
@@ -710,6 +777,7 @@ def event_of(iface, o):
         f['method'] = f['method'] if isinstance(f['method'], str) else '?'
         ev.update(f)
         ev['status'] = o['proj']['status']
+        ev['foreign'] = sorted(c for c, ms in dg['foreign'].items() if ms)     # containers showing another request's marks
         # invalid framing (the Content-Length accessor raised): what reading the body yields is not compared
         framing_ok = not (isinstance(dg['content_length'], dict) and 'http_error' in dg['content_length'])
         ev['dg'] = sha(dg if framing_ok else {k: v for k, v in dg.items() if k not in ('body', 'media')})
@@ -718,8 +786,8 @@ def event_of(iface, o):
 
 
 def run(ctx):
-    ctx.rule = ('case = (abstract request, request options, responder kind); generated by TLC (leg A) or by the seeded '
-                'rng (leg B); non-trivial iff the request has a repeated or non-canonically cased header field, a '
+    ctx.rule = ('case = (abstract request, request options, responder kind) or a history of requests with the '
+                'application\'s writes; generated by TLC (legs A, H) or by the seeded rng (leg B); non-trivial iff the request has a repeated or non-canonically cased header field, a '
                 'non-ASCII or percent-escaped target, or a body arriving in chunks; distinct by hash of the case')
     ctx.trusted_base = ['TLC evaluation of spec/ServerIface.tla', 'engine/drivers.py (raw WSGI/ASGI drivers and protocol monitors)',
                         "CPython codecs (latin-1, utf-8)", 'http.cookies (Set-Cookie projection)', 'json / hashlib for digests']
@@ -733,7 +801,7 @@ def run(ctx):
                        'without "_", truthful Content-Length, Host values name[:digits])']
 
     # ---- leg M: the design -----------------------------------------------------------------------
-    acts = ['Start', 'SetResponder', 'SetTarget', 'SetQuery', 'AddHeader', 'EndHeaders', 'SetBody', 'SetEndpoint', 'SetForwarding', 'Send']
+    acts = ['Start', 'SetClass', 'SetResponder', 'SetTarget', 'SetQuery', 'AddHeader', 'EndHeaders', 'SetBody', 'SetEndpoint', 'SetForwarding', 'Send']
     if ctx.quick:
         r = ctx.tlc('MC_ServerIface', 'MC_ServerIfaceQ.cfg', coverage=True, workers=8, timeout=600)
         ctx.require_coverage(r, acts)
@@ -750,7 +818,7 @@ def run(ctx):
     ctx.progress('leg M done')
 
     # ---- leg A: TLC-generated cases --------------------------------------------------------------
-    rs = ctx.tlc('MC_ServerIface', 'MC_ServerIfaceSim.cfg', simulate={'num': ctx.pick(700, 6500)}, depth=14,
+    rs = ctx.tlc('MC_ServerIface', 'MC_ServerIfaceSim.cfg', simulate={'num': ctx.pick(700, 6500)}, depth=15,
                  seed=ctx.seed + 1, workers=4, timeout=900, count=False)
     cases = {digest([c['req'], c['opts'], c['kind'], c['resp']]): c for c in rs.json}
     cases = list(cases.values())[:ctx.pick(2600, 24000)]
@@ -766,23 +834,46 @@ def run(ctx):
     ctx.extra['leg_A'] = {'cases': len(cases), 'driver_runs': n4}
     ctx.progress('leg A done: %d cases, %d driver runs' % (len(cases), n4))
 
-    # ---- leg B: random richer requests, judged by TLC ------------------------------------------------
+    # ---- leg H: TLC-generated histories on ONE application object per driver ---------------------------
+    rh = ctx.tlc('ServerIfaceHistory', ctx.pick('ServerIfaceHistory2.cfg', 'ServerIfaceHistory3.cfg'), coverage=True,
+                 workers=4, timeout=300)
+    ctx.require_coverage(rh, ['Arrive', 'Write', 'Finish'])
+    rbad = ctx.tlc('ServerIfaceHistory', 'ServerIfaceHistoryBad.cfg', workers=2, timeout=300, must_hold=False, count=False)
+    if rbad.violated != 'ViewIndependentOfHistory':
+        raise MachineryError('wrong-design switch SharedFallback did not violate ViewIndependentOfHistory (got %r)' % rbad.violated)
+    hists = list({digest(b): b for b in rh.json}.values())
+    nsteps = 0
+    for hid, hist in enumerate(hists):
+        nsteps += replay_history(ctx, hid, hist['steps'])
+    ctx.traces_validated += len(hists)
+    ctx.extra['leg_H'] = {'histories': len(hists), 'requests': nsteps, 'driver_runs': 4 * nsteps,
+                          'wrong_design_switch': 'SharedFallback=TRUE violates ViewIndependentOfHistory'}
+    ctx.progress('leg H done: %d histories, %d requests x 4 drivers' % (len(hists), nsteps))
+
+    # ---- leg B: random richer requests in histories of 3 on one application object per driver, judged by TLC ------
     nrand = ctx.pick(1500, 16000)
     rng = ctx.rng
     traces, briefs = [], []
+    apps = None
     for i in range(nrand):
         rq = random_request(rng)
-        opts = {'strip': rng.random() < 0.5, 'keep_blank': rng.random() < 0.5, 'csv': rng.random() < 0.5}
+        if i % 3 == 0:          # a new history: fresh application objects, one per driver
+            opts = {'strip': rng.random() < 0.5, 'keep_blank': rng.random() < 0.5, 'csv': rng.random() < 0.5}
+            apps = fresh_apps(opts)
+        writes = rng.choice([(), (), ('params',), ('context', 'resp_context'), ('params', 'cookies', 'headers'), ('extras',),
+                             CONTAINERS])
         kind = rng.choice(KINDS)
-        plain = {'status': 200, 'source': 'none', 'ctype': False}
+        plain = {'status': 200, 'text': 'unset', 'data': 'unset', 'media': 'unset', 'stream': False, 'ctype': False}
         if rng.random() < 0.5:
             kind = 'plain'
-            plain = {'status': rng.choice([200, 201, 204, 304, 101, 100, 205, 404]),
-                     'source': rng.choice(['none', 'text', 'data', 'media', 'stream']), 'ctype': rng.random() < 0.4}
+            tri = ['unset', 'unset', 'empty', 'set']
+            plain = {'status': rng.choice([200, 200, 201, 204, 304, 101, 100, 205, 404]), 'text': rng.choice(tri),
+                     'data': rng.choice(tri), 'media': rng.choice(tri), 'stream': rng.random() < 0.3,
+                     'ctype': rng.random() < 0.4}
         cj = harness_client_args(rq)
         # the drivers are run wherever the harness can form the call; TLC (Expressible) decides which events count
         can = {'raw-wsgi': True, 'raw-asgi': True, 'client-wsgi': cj is not None, 'client-asgi': cj is not None}
-        obs = observe_all(rq, cj, opts, kind, can, plain)
+        obs = observe_all(rq, cj, opts, kind, can, plain, apps=apps, writes=writes, mark='vmark-b%d' % i)
         evs = [event_of(iface, obs[iface]) for iface in IFACES if iface in obs]
         trace = {'req': rq, 'opts': opts, 'kind': kind, 'resp': plain, 'ev': evs}
         nontrivial = (len({L1(h['n']).lower() for h in rq['headers']}) < len(rq['headers'])
@@ -809,8 +900,65 @@ def run(ctx):
     ctx.note('leg A compares in Python observed values with values exported by TLC; leg B lets TLC compare')
 
 
+B = lambda t: list(t.encode('latin-1'))
+
+
+def history_request(own):
+    """the request standing for one step of a ServerIfaceHistory behaviour: it either brings content of its own
+    for the containers (query string, cookies, an extra header field) or it brings none"""
+    hs = [{'n': B('Host'), 'v': B('falconframework.org')}, {'n': B('User-Agent'), 'v': B('ua')}]
+    if own:
+        hs += [{'n': B('Cookie'), 'v': B('c=1')}, {'n': B('X-Own'), 'v': B('1')}]
+    return {'method': 'GET', 'target': B('/r/h'), 'query': B('a=1&b=x') if own else [], 'headers': hs, 'body': [], 'chunks': [],
+            'scheme': 'http', 'server': {'name': B('falconframework.org'), 'port': 80}, 'root': [], 'peer': B('127.0.0.1'),
+            'version': '1.1'}
+
+
+def replay_history(ctx, hid, steps):
+    """One TLC-generated history: every step on the SAME application object of each driver; what each request
+    finds in its containers must be what the specification says (nothing of an earlier request) and the request
+    views must be equal on the four drivers."""
+    opts = {'strip': False, 'keep_blank': True, 'csv': False}
+    apps = fresh_apps(opts)
+    brief = {'origin': 'tlc-history', 'history': steps}
+    ctx.case(brief, nontrivial=len(steps) >= 2 and any(st['writes'] for st in steps[:-1]), key=digest(steps))
+    for k, st in enumerate(steps, 1):
+        rq = history_request(st['own'])
+        cj = harness_client_args(rq)
+        obs = observe_all(rq, cj, opts, 'echo', {i: True for i in IFACES}, None, apps=apps, writes=st['writes'],
+                          mark='vmark-h%d-%d' % (hid, k))
+        base = None
+        for iface in IFACES:
+            o = obs[iface]
+            if o['exc'] is not None or o['digest'] is None:
+                ctx.violation('P:exception' if o['exc'] else 'P:reached', brief, 'history step %d, %s: %s' % (k, iface, o['exc']))
+                continue
+            # marks visible at arrival, as request numbers of this history (-1: a mark of another history)
+            seen = {c: sorted(int(m.rsplit('-', 1)[1]) if m.startswith('vmark-h%d-' % hid) else -1 for m in ms)
+                    for c, ms in o['digest']['foreign'].items()}
+            want = {c: sorted(v) for c, v in st['seen'].items()}
+            if seen != want:
+                ctx.violation('P:history-leak', brief, 'history step %d, %s: the request finds marks of earlier requests in '
+                              'its containers: %s (specification: %s)' % (k, iface, canon({c: v for c, v in seen.items() if v}),
+                                                                          canon({c: v for c, v in want.items() if v})))
+            if base is None:
+                base = (iface, o)
+            else:
+                bad = sorted(a for a in set(o['digest']) | set(base[1]['digest']) if o['digest'].get(a) != base[1]['digest'].get(a))
+                if o['proj'] != base[1]['proj']:
+                    bad.append('response')
+                if bad:
+                    ctx.violation('P:equal-request' if bad != ['response'] else 'P:equal-response', brief,
+                                  'history step %d: %s differs from %s in %s %s' % (k, iface, base[0], bad, canon(
+                                      {a: [base[1]['digest'].get(a), o['digest'].get(a)] for a in bad if a != 'response'})[:500]))
+    return len(steps)
+
+
 def replay(ctx, case):
     c = case.get('case', case)
+    if 'history' in c:
+        replay_history(ctx, 0, c['history'])
+        return
     if 'expected' in c:
         obs = check_case(ctx, c, 'replay')
     else:
